@@ -53,8 +53,10 @@ Fixpoint nv_trimmed (x : nv) : bool :=
   end.
 
 (* ---- a value written into ONE cell (to_nested_list + join) reads back ------------------------
-   the cell codec's domain (C08: wfb — at most two list levels for the value at hand, lists
-   non-empty, a list of two or more does not end in a blank string, no U+0001), every string
+   the cell codec's domain ON THE TREE AT HAND (C08: wfb_tree — at most two list levels for the value at hand,
+   lists non-empty, no U+0001 while cleanse has a temporary character, and — only on a tree whose
+   join_from_lists does not keep an empty last element, Gen/Tables.v: join_keeps_blank_last — a list of two
+   or more does not end in a blank string), every string
    trimmed, and the shape the positional/keyword decoder of assign_value inverts:
    a list of basics, a list of lists of basics, a bare list, or a model whose written
    (non-default) fields are basic and keep their name under header_name_to_field_name.
@@ -86,7 +88,7 @@ Definition packed_ok (t : ty) (v : value) : bool :=
   | _, _ =>
     match to_nv t v with
     | Ok x =>
-      wfb x && nv_trimmed x &&
+      wfb_tree x && nv_trimmed x &&
       match t, v with
       | TList t', VList l => elems_packable t' l
       | TUList, VList _ => true
